@@ -384,7 +384,73 @@ def gen_object_specs(rng, deep=False):
             ops = [call(kind, rng.choice(["elp", "log_marginal", "marginal", "poly"]), "float64") for _ in range(rng.choice([3, 4]))]
             specs.append({"kind": "object-history", "object": kind, "built_under": "float64", "N": rng.choice([5, 20, None]),
                           "par": par(), "ops": with_modes(ops, force=(rep == 0))})
+    # (d) use -> change a hyper-parameter (every public way) -> use again, in eval and in train mode; the second use is
+    #     judged with the CURRENT hyper-parameters (shadow kept by the harness: the values it asked for)
+    specs += gen_setter_specs(rng, deep)
     return specs
+
+
+HYPER = {"Laplace": ["noise"], "StudentT": ["noise", "df"], "Beta": ["scale"], "Bernoulli": []}
+WAYS = ("setter", "initialize", "initialize_raw", "raw_copy", "raw_data")
+
+
+def gen_setter_specs(rng, deep=False):
+    specs = []
+
+    def pts(n):
+        return ([rng.uniform(-2, 2) for _ in range(n)], [10 ** rng.uniform(-1.2, 0.4) for _ in range(n)])
+
+    def newval(h):
+        return {"noise": 10 ** rng.uniform(-0.8, 0.6), "df": rng.uniform(2.5, 12), "scale": 10 ** rng.uniform(-0.3, 1.3)}[h]
+
+    def use(kind, op=None):
+        n = rng.choice([1, 2, 3])
+        m, v = pts(n)
+        op = op or rng.choice(["elp", "log_marginal", "cond", "marginal"])
+        y = [rng.uniform(0.1, 0.9) for _ in m] if kind == "Beta" else [x + rng.gauss(0, 1) for x in m]
+        return {"op": op, "dtype": "float64", "m": m, "v": v, "dist": rng.choice(["normal", "diag", "dense"]), "y": y, "enc": "01"}
+
+    for rep in range(3 if deep else 1):
+        for kind in ("Laplace", "StudentT", "Beta"):
+            for mode in ("eval", "train"):
+                ways = list(WAYS)
+                rng.shuffle(ways)
+                ops = [{"op": mode}, use(kind, rng.choice(["elp", "log_marginal", "cond"]))]
+                for wi, way in enumerate(ways if deep or rep == 0 else ways[:3]):
+                    hs = HYPER[kind]
+                    h = hs[(wi + rep) % len(hs)]
+                    ops.append({"op": "set", "way": way, "hyper": h, "value": newval(h)})
+                    ops.append(use(kind, ["elp", "log_marginal", "cond"][(wi + rep) % 3]))
+                    if rng.random() < 0.4:
+                        ops.append(use(kind))
+                if mode == "eval" and rng.random() < 0.5:
+                    ops += [{"op": "train"}, {"op": "eval"}, use(kind, "elp")]
+                specs.append({"kind": "object-history", "object": kind, "built_under": "float64", "N": rng.choice([5, 10, None]),
+                              "par": {"noise": newval("noise"), "df": newval("df"), "scale": newval("scale")}, "ops": ops,
+                              "family": f"setters:{mode}"})
+    return specs
+
+
+def _apply_set(obj, kind, c):
+    """change one hyper-parameter of the likelihood to c['value'] in the way c['way']"""
+    import torch
+    name = {"noise": "noise", "df": "deg_free", "scale": "scale"}[c["hyper"]]
+    raw = getattr(obj, "raw_" + name)
+    with warnings.catch_warnings():
+        warnings.simplefilter("ignore")
+        if c["way"] == "setter":
+            setattr(obj, name, c["value"])
+        elif c["way"] == "initialize":
+            obj.initialize(**{name: c["value"]})
+        else:
+            rawv = getattr(obj, "raw_" + name + "_constraint").inverse_transform(torch.full_like(raw.detach(), c["value"]))
+            if c["way"] == "initialize_raw":
+                obj.initialize(**{"raw_" + name: rawv})
+            elif c["way"] == "raw_copy":
+                with torch.no_grad():
+                    raw.copy_(rawv)
+            else:
+                raw.data = rawv.clone()
 
 
 def _build(spec):
@@ -466,7 +532,18 @@ def run_object(spec, mp_logp):
             par_set = True
         snap = snapshot(obj)
         done = []
+        cur = dict(spec["par"]) if spec["par"] else None      # shadow of the hyper-parameters: what the harness asked for
         for c in spec["ops"]:
+            if c["op"] == "set":
+                try:
+                    _apply_set(obj, kind, c)
+                except Exception as e:
+                    probs.append((f"object-history:raised:{kind}:set", f"{kind}: setting {c['hyper']} by {c['way']} raised {type(e).__name__}: {str(e)[:120]}"))
+                    break
+                cur[c["hyper"]] = c["value"]
+                snap = snapshot(obj)
+                done.append(f"set[{c['hyper']}={c['value']:.4g} by {c['way']}]")
+                continue
             if c["op"] in ("eval", "train"):
                 getattr(obj, c["op"])()          # only the `training` flags may change (not part of the snapshot)
                 now = snapshot(obj)
@@ -504,6 +581,13 @@ def run_object(spec, mp_logp):
                     if c["op"] == "poly":
                         ks = sorted({0, 1, 2, 2 * N - 1, 2 * N - 2, (7 * len(done) + 3) % (2 * N)})
                         val = {k: q(lambda x, k=k: x ** k, dist).double().tolist() for k in ks}
+                    elif c["op"] == "cond":
+                        f_ = torch.tensor(c["m"], dtype=torch.float64)
+                        d_ = obj(f_)
+                        val = {"Laplace": lambda: [d_.loc.tolist(), d_.scale.expand_as(f_).tolist()],
+                               "StudentT": lambda: [d_.loc.tolist(), d_.scale.expand_as(f_).tolist(), d_.df.expand_as(f_).tolist()],
+                               "Beta": lambda: [d_.concentration1.tolist(), d_.concentration0.tolist()],
+                               "Bernoulli": lambda: [d_.probs.tolist()]}[kind]()
                     else:
                         y = torch.tensor(c["y"], dtype=torch.float64).to(_dt(c["dtype"]))
                         if c["op"] == "elp":
@@ -548,6 +632,22 @@ def run_object(spec, mp_logp):
                         judged[k] = (val[k][j], 2.0 * (uw * A + ut * B) + 64 * (N + k) * EPS * (A + B) + 1e-300)
                     mreq.append((m, v, 2 * N - 1, judged, desc))
                 continue
+            if c["op"] == "cond":
+                for j in range(n):
+                    f_ = c["m"][j]
+                    sg = 1 / (1 + math.exp(-f_))
+                    want = {"Laplace": lambda: [f_, math.sqrt(cur["noise"])],
+                            "StudentT": lambda: [f_, math.sqrt(cur["noise"]), cur["df"]],
+                            "Beta": lambda: [sg * cur["scale"] + 1, (1 - sg) * cur["scale"] + 1],
+                            "Bernoulli": lambda: [float(mp.ncdf(f_))]}[kind]()
+                    got = [col[j] for col in val]
+                    if not all(abs(a - b) <= 1e-10 * (1 + abs(b)) for a, b in zip(got, want)):
+                        probs.append((f"object-history:value:{kind}:cond", f"{desc}: the conditional p(y|f={f_!r}) has parameters {got}; "
+                                      f"documented parameters for the CURRENT hyper-parameters {cur}: {want}"))
+                        break
+                if probs:
+                    break
+                continue
             xs_all, ws = None, [mp.mpf(float(w)) / mp.sqrt(mp.pi) for w in w0]
             for j in range(n):
                 m, v, yj = ms[j], vs[j], c["y"][j]
@@ -556,7 +656,7 @@ def run_object(spec, mp_logp):
                     y_spec = (s + 1) / 2.0
                 else:
                     y_spec = yj
-                p_ = spec["par"]
+                p_ = cur
                 if c["op"] == "marginal":
                     ref = float(mp.ncdf(mp.mpf(m) / mp.sqrt(1 + mp.mpf(v))))
                     ok = abs(val[j] - ref) <= 1e-12 + 8 * EPS * ref
@@ -577,7 +677,9 @@ def run_object(spec, mp_logp):
                     opn = {"elp": "expected_log_prob", "log_marginal": "log_marginal", "marginal": "marginal().probs"}[c["op"]]
                     enc = " (labels in the deprecated {-1,1} encoding)" if c.get("enc") == "pm" else ""
                     probs.append((f"object-history:value:{kind}:{c['op']}", f"{desc}: {opn}(y={yj!r}{enc}, N({m!r},{v!r})) = {val[j]!r}; "
-                                  f"the {N}-point rule of the object's construction-time table on the documented density gives {ref!r}"))
+                                  f"the {N}-point rule of the object's construction-time table on the documented density"
+                                  + (f" with the current hyper-parameters {cur}" if any(o_["op"] == "set" for o_ in spec["ops"]) else "")
+                                  + f" gives {ref!r}"))
                     break
             if probs:
                 break
